@@ -129,7 +129,11 @@ Definition tt_elements : list (text * ekind) :=
 Definition s_kind (tag : qname) (attrs : list (qname * text)) : option ekind :=
   if fst tag =? NS_TT then
     if text_eqb (snd tag) (snd T_span) then
-      match get_attr attrs A_ruby with None => Some KSpan | Some v => assoc_text ruby_roles v end
+      (* a tts:ruby value that is not one of the six keywords is malformed: ignored *)
+      match get_attr attrs A_ruby with
+      | None => Some KSpan
+      | Some v => match assoc_text ruby_roles v with Some k => Some k | None => Some KSpan end
+      end
     else
       match assoc_text tt_elements (snd tag) with
       | Some KRegion => match get_attr attrs A_id with Some _ => Some KRegion | None => None end
@@ -328,7 +332,7 @@ Definition presented (tv : text -> option Q) (tt : xml) (t : Q) : list text :=
       | _ =>
           flat_map (fun r =>
             let '(rb, re) := interval tv false 0%Q r in
-            if active t rb re && shown tv t rb re true (x_attrs r) (x_children r)
+            if active t rb re && shown tv t rb re (negb (s_is_seq (x_attrs r))) (x_attrs r) (x_children r)
             then visible tv names t (Some (region_name r)) None false 0%Q 0%Q None body else []) rs
       end
   end.
